@@ -1358,9 +1358,9 @@ class Store:
             for key, topology in insertion['topology'].items()]
         topology_updates.extend(topology_paths)
 
-        flow_paths = [
-            (root + (key,), flow)
-            for key, flow in insertion.get('flow', {}).items()]
+        # one entry per step, at any depth (a generated composite may
+        # hold its flow steps in sub-compartments), as in divide()
+        flow_paths = dict_to_paths(root, insertion.get('flow') or {})
         flow_updates.extend(flow_paths)
 
         self._apply_subschema_path(path)
